@@ -46,7 +46,8 @@ CORRUPTIONS = ["flip-message", "flip-signature", "flip-tweak", "flip-key", "swap
                "other-key", "other-message", "tweak-added", "tweak-removed", "tweak-changed",
                "reparent", "wrong-root", "root-is-inner-key", "high-s", "truncate-signature",
                "signature-trailing-byte", "flip-signature-structure",
-               "flip-signature-structure"]
+               "flip-signature-structure", "certifier-key-with-extra-bytes",
+               "certifier-key-with-extra-bytes"]
 
 
 def shards(tier, seed):
@@ -187,6 +188,29 @@ def corrupt(rng, doc, info, kind):
         if "tweak" in el:
             sk = g.tweaked_key(sk, bytes.fromhex(el["tweak"]))
         el["signature"] = g.sign(sk, bytes.fromhex(el["message"]), rng, high_s=True).hex()
+    elif kind == "certifier-key-with-extra-bytes":
+        # a certifier whose value is a public key followed (or preceded) by further
+        # bytes, itself genuinely signed: 34+/66+ bytes are not a public key, so what it
+        # certifies does not verify (docs/attestation.md: the value IS the key)
+        cands = [n for n in els if n != "device" and
+                 any(e["signed_by"] == n for e in els.values()) and n in info["keys"]]
+        if not cands:
+            return None
+        name = rng.choice(cands)
+        el = els[name]
+        m = bytes.fromhex(el["message"])
+        extra = rng.choice([b"\x00", b"\x90\x00", b"\x04", rng.randbytes(1),
+                            rng.randbytes(2), rng.randbytes(32), b"\x00" * 15])
+        if name == "attestation" or rng.random() < 0.7:
+            m = m + extra
+        else:
+            m = extra + m
+        el["message"] = m.hex()
+        p = info["parents"][name]
+        sk = info["root"] if p == "root" else info["keys"][p]
+        if "tweak" in el:
+            sk = g.tweaked_key(sk, bytes.fromhex(el["tweak"]))
+        el["signature"] = g.sign(sk, m, rng).hex()
     elif kind == "truncate-signature":
         el["signature"] = el["signature"][:-2]
     elif kind == "signature-trailing-byte":
